@@ -96,7 +96,9 @@ class NXOSDriverBase:
                 "unique session name"
             )
             raise ScrapliValueError(msg)
-        pattern = r"^[a-z0-9.\-_@/:]{1,32}\(config\-s[a-z0-9.\-@/:]{0,32}\)#\s?$"
+        pattern = (
+            r"^[\w.\-]{1,63}(\(maint\-mode\))?\(config\-s(\-[\w.\-@/:\+]{0,30})?\)#\s?$"
+        )
         name = session_name
         config_session = PrivilegeLevel(
             pattern=pattern,
